@@ -225,6 +225,12 @@ public:
         }
 
         // read rest of file, and get additional chunks in info_ptr
+        // read_rows() re-armed the jump buffer in its own frame, which is gone by now
+        if (setjmp( png_jmpbuf( this->get_struct() )))
+        {
+            io_error("png is invalid");
+        }
+
         png_read_end( this->get_struct()
                     , nullptr
                     );
